@@ -442,6 +442,65 @@ def oracle_step(ctx, case, w, rec, before, after, stepno):
     return not fails
 
 
+# ----------------------------------------------------------------------------- read-only observers
+
+def observe_readonly(ctx, case, w, seed, stepno):
+    """Between two recorded operations, READ something from a random live molecule / residue through the
+    public getters (geometric_center, x/y/z, distance_to, distance_to_zero, atoms_positions, atoms, len, str,
+    ==).  A read is not an operation of the model (its state cannot change), so it is not sent to the driver;
+    what is checked here, on the implementation only: nothing observable changes, and a centre that is read
+    IS the mean of the coordinates the object shows now.  Reads matter because they are where caches get
+    filled (seed C18-2: a centre cached on read and not invalidated by assignment through an atom view)."""
+    rng = random.Random(f"obs-{seed}")
+    if rng.random() < 0.45:
+        return
+    cands = [j for j, m in enumerate(w.meta) if m["kind"] in ("mol", "res")]
+    if not cands:
+        return
+    j = rng.choice(cands)
+    o = w.env[j]
+    what = rng.choice(["centre", "centre", "xyz", "dist", "dist0", "positions", "atoms", "len-str-eq"])
+    before = w.snapshot()
+    got = None
+    try:
+        import warnings
+        with warnings.catch_warnings():
+            warnings.simplefilter("ignore")
+            if what == "centre":
+                got = np.array(o.geometric_center, dtype=float)
+            elif what == "xyz":
+                got = np.array([o.x, o.y, o.z], dtype=float)
+            elif what == "dist":
+                k = rng.choice(cands)
+                o.distance_to(w.env[k])
+                o.distance_to(np.array([0.5, -1.0, 2.0]))
+            elif what == "dist0":
+                o.distance_to_zero
+            elif what == "positions":
+                o.atoms_positions
+                o.atoms_velocities
+                o.atoms_ids
+            elif what == "atoms":
+                list(o.atoms)
+            else:
+                len(o)
+                str(o)
+                o == o
+    except Exception:   # noqa: BLE001  (objects put in an inconsistent state by earlier label ops raise on access)
+        ctx.count("observe:raised")
+        return
+    ctx.count("observe:" + what)
+    after = w.snapshot()
+    if not all(hg.bits_equal(a, b) for a, b in zip(before, after)):
+        ctx.oracle_fail("c18:isolation:read-changes-state:" + what, case, {"step": stepno, "object": j})
+    if got is not None:
+        P = positions_of(after[j])
+        if len(P) and np.abs(P.mean(axis=0) - got).max() > TOL * max(1.0, np.abs(got).max()):
+            ctx.oracle_fail("c18:rigid:centre:reported-centre-is-not-the-mean:" + w.meta[j]["kind"], case,
+                            {"step": stepno, "object": j, "reported": got, "mean": P.mean(axis=0)})
+    ctx.oracle_ok(2)
+
+
 # ----------------------------------------------------------------------------- evaluate
 
 def evaluate(ctx, case):
@@ -451,6 +510,7 @@ def evaluate(ctx, case):
     mutations_after_copy = 0
     for stepno, seed in enumerate(case["steps"]):
         rng = random.Random(seed)
+        observe_readonly(ctx, case, w, seed, stepno)
         before = w.snaps[-1]
         rec = do_step(ctx, w, rng, mode)
         after = w.snaps[-1]
